@@ -894,6 +894,22 @@ func (c *c08Case) oneWriteOp(ctx context.Context, tx db.Transaction, m *dbModel)
 				}
 			}
 
+			// sometimes re-use the name of a deleted, still subscribed mailbox: the new mailbox takes the name over
+			if !dupName && !dupRemote && len(m.DeletedSubs) > 0 && rng.Intn(3) == 0 {
+				var names []string
+				for n := range m.DeletedSubs {
+					if m.mboxByName(n) == nil {
+						names = append(names, n)
+					}
+				}
+
+				sort.Strings(names)
+
+				if len(names) > 0 {
+					name = names[rng.Intn(len(names))]
+				}
+			}
+
 			flags, perm, attrs := c.someFlags(3), c.someFlags(3), []string{`\Noinferiors`, `\Drafts`}[:rng.Intn(3)]
 			uidv := imap.UID(5000 + c.nMbox)
 			variant := rng.Intn(4)
@@ -973,6 +989,13 @@ func (c *c08Case) oneWriteOp(ctx context.Context, tx db.Transaction, m *dbModel)
 				return full, nil
 			}
 
+			// a new mailbox takes over the name: the subscription of a deleted namesake goes
+			if _, had := m.DeletedSubs[name]; had {
+				c.note(op, "takes-over-deleted-subscription", 1)
+			}
+
+			delete(m.DeletedSubs, name)
+
 			m.Mboxes[newID] = &dbMbox{ID: newID, RemoteID: remote, Name: name, UIDValidity: uidv, Subscribed: true,
 				Flags: lowerSet(imap.NewFlagSet(flags...)), PermFlags: lowerSet(imap.NewFlagSet(perm...)), Attrs: lowerSet(imap.NewFlagSet(attrs...))}
 
@@ -1024,6 +1047,7 @@ func (c *c08Case) oneWriteOp(ctx context.Context, tx db.Transaction, m *dbModel)
 			}
 
 			target.Name = name
+			delete(m.DeletedSubs, name)
 
 			return full, nil
 
